@@ -189,6 +189,11 @@ def formula_rule(ctx, rep, fn, want, sink, why):
             while (util.is_call(top) and len(top[2]) == 1 and (top[1] in util.IDENT_CALLS or top[1].endswith("::from_le_bytes"))) or (top[0] == "agg" and top[1] == "adt" and len(top[4]) == 1):
                 top = strip(top[2][0] if top[0] == "call" else top[4][0])
             is_pad = top[0] == "after" and util.is_call(top[1]) and (top[1][1].endswith("::index_mut") or top[1][1].split("::")[-1] == "split_at_mut") and strip(top[3])[0] == "repeat" and strip(top[3])[1][:2] == ("int", 0)
+            if good and not is_pad and util.is_call(top) and len(top[2]) == 1:
+                # ... or a call to one of the crate's fixed-width exports of a big integer (each is a
+                # copy site of C01's padding rule)
+                from rules import c01 as _c01
+                is_pad = top[1] in _c01.PADDERS or _c01.padder_width(ctx, top[1]) is not None or (top[1].startswith("<key::") and top[1].endswith(" as std::convert::From<bigint::Integer>>::from"))
             if good and not is_pad:
                 good = False
                 desc += " - but the value handed on is %s, not the zero-padded little-endian copy of it" % show(top, maxdepth=2)
